@@ -372,7 +372,8 @@ def run_tlc(tla: str, cfg: Optional[str] = None, *, workers: int | str = int(os.
     res.returncode = rc  # type: ignore[attr-defined]
     # rc 0 = ok, 10..13 = violations; anything else (parse errors 150/151, crashes) = machinery
     if rc not in (0, 10, 11, 12, 13, -9) and not any(i.kind != 'error' for i in res.issues):
-        raise TLCError(f'TLC failed (rc={rc}) for {tla}:\n{out[-4000:]}')
+        msgs = '\n'.join(f'{i.name}: {i.message[:1500]}' for i in res.issues[:4])
+        raise TLCError(f'TLC failed (rc={rc}) for {tla}:\n{msgs}\n...\n{out[-1500:] if not msgs else ""}')
     return res
 
 
